@@ -34,6 +34,7 @@ func (r *verifRunner) Run(input interface{}) (interface{}, time.Duration) {
 }
 
 func verifLimiter(withGC bool) {
+	verif.Option("panic_is_violation", 1) // a panic must never end a path silently
 	verif.Option("max_preempt", verif.Bound("preemptions", 2, 3))
 	clk := clock.NewMock()
 	clk.Set(time.Unix(1000, 0))
